@@ -339,3 +339,20 @@ def find_knot_span(degree, knot_vector, num_ctrlpts, knot):
         span += 1
     return span
 
+
+def unique_geometries(geom):
+    """ Generates the geometries of the input (a geometry container or a list of geometries) without repetitions.
+
+    A container can contain the same geometry object more than once; the operations which update the geometries must be
+    applied to every geometry object only once.
+
+    :param geom: geometries
+    :type geom: list, tuple, abstract.GeometryContainer
+    :return: generator of the distinct geometry objects
+    """
+    seen = set()
+    for g in geom:
+        if id(g) not in seen:
+            seen.add(id(g))
+            yield g
+
